@@ -11,7 +11,7 @@
 
   No Mathlib, no `import Lean`: linked into the driver.
 -/
-namespace Pyx.Oal
+namespace Pyx.OalLex
 
 /-- number of newline characters -/
 def countNl (cs : List Char) : Nat := cs.count '\n'
@@ -52,4 +52,4 @@ structure Position where
   endColumn : Int
   deriving Repr, DecidableEq
 
-end Pyx.Oal
+end Pyx.OalLex
